@@ -31,6 +31,8 @@ def setup_worker(tier):
 def template(rng):
     """hand-shaped negative loops: through an AD, through evidence, through an already-tabled ground goal, inside a positive cycle"""
     L = G.L
+    if rng.random() < 0.5:
+        return composite(rng)
     k = rng.randrange(7)
     cl = [["fact", rng.choice(G.PAL), L("f0")], ["fact", rng.choice(G.PAL), L("f1")], ["fact", rng.choice(G.PAL), L("f2", [1])],
           ["fact", rng.choice(G.PAL), L("f2", [2])]]
@@ -63,6 +65,49 @@ def template(rng):
     for c in (1, 2):
         cl.append(["rule", None, L("dom", [c]), []])
     return dict(consts=[1, 2], clauses=cl, queries=q, evidence=ev)
+
+
+def composite(rng):
+    """a positive loop p0..pm and a loop g0..gn with at least one negative edge, connected in every direction (the negative loop below,
+    beside or above the positive one, or entangled with it), with supporting clauses before/after the looping ones and random clause order"""
+    L = G.L
+    cl = [["fact", rng.choice(G.PAL), L("f%d" % k)] for k in range(3)]
+    rules = []
+    m = rng.randint(1, 3)
+    n = rng.randint(1, 3)
+    P = ["p%d" % k for k in range(m)]
+    Q = ["g%d" % k for k in range(n)]
+
+    def extra():
+        return [L("f%d" % rng.randrange(3), [], rng.random() < 0.2)] if rng.random() < 0.4 else []
+    for k in range(m):
+        rules.append(["rule", None, L(P[k]), [L(P[(k + 1) % m])] + extra()])
+    negs = [rng.random() < 0.6 for _ in range(n)]
+    if not any(negs):
+        negs[rng.randrange(n)] = True
+    for k in range(n):
+        rules.append(["rule", None, L(Q[k]), [L(Q[(k + 1) % n], [], negs[k])] + extra()])
+    # supporting (exit) clauses
+    for a in P + Q:
+        if rng.random() < 0.6:
+            rules.append(["rule", rng.choice([None, None, rng.choice(G.PAL)]), L(a), [L("f%d" % rng.randrange(3))]])
+    # connections
+    how = rng.randrange(4)
+    if how in (0, 2):     # negative loop below the positive one
+        rules.append(["rule", None, L(rng.choice(P)), [L(rng.choice(Q))] + extra()])
+    if how in (1, 2):     # positive loop below the negative one
+        rules.append(["rule", None, L(rng.choice(Q)), [L(rng.choice(P), [], rng.random() < 0.3)] + extra()])
+    if how == 3:          # both reached from a common top
+        rules.append(["rule", None, L("top"), [L(rng.choice(P)), L(rng.choice(Q), [], rng.random() < 0.3)]])
+    if rng.random() < 0.7:
+        rng.shuffle(rules)
+    q = [L("top")] if how == 3 else [L(rng.choice(P + Q))]
+    if rng.random() < 0.4:
+        q.append(L(rng.choice(P + Q)))
+    cl += rules
+    for c in (1, 2):
+        cl.append(["rule", None, L("dom", [c]), []])
+    return dict(consts=[1, 2], clauses=cl, queries=q, evidence=[])
 
 
 def gen_case(rng, i, tier):
